@@ -194,34 +194,70 @@ func diffSets(got, want map[string]bool) string {
 	return fmt.Sprintf("missing %v, unexpected %v", miss, extra)
 }
 
+// stopExported: helpers are entered only when unexported (exported functions and methods are
+// API anchors analysed on their own).
+func stopExported(f *ssa.Function) bool {
+	return f.Object() != nil && f.Object().Exported()
+}
+
 // constStringArgs collects the constant strings passed at argument index argIdx to calls
-// matching `match` within fn (and its closures). Loops over a constant slice literal whose
-// elements feed the argument are unfolded: if the argument is not a constant but derives
-// from indexing a slice built from constants in the same function, all those constants count.
+// matching `match` within fn, its closures and the unexported helpers it calls (arguments
+// are resolved in the calling context, so a helper taking the names as a parameter is
+// transparent). Loops over a constant slice / array literal are unfolded.
 func constStringArgs(fn *ssa.Function, match func(string) bool, argIdx int) (consts map[string]bool, nonConst int) {
+	return constStringArgsStop(fn, match, argIdx, stopExported)
+}
+
+func constStringArgsStop(fn *ssa.Function, match func(string) bool, argIdx int, stop func(*ssa.Function) bool) (consts map[string]bool, nonConst int) {
 	consts = map[string]bool{}
-	for _, call := range fw.CallsTo(fn, true, match) {
-		args := call.Common().Args
-		idx := argIdx
-		if call.Common().IsInvoke() {
-			// receiver is not in Args for invoke
-		}
-		if idx >= len(args) {
+	for _, dc := range fw.DeepCalls(fn, match, stop) {
+		args := dc.Call.Common().Args
+		if argIdx >= len(args) {
 			nonConst++
 			continue
 		}
-		if s, ok := fw.ConstString(args[idx]); ok {
+		ss, ok := fw.ConstStringsIn(args[argIdx], dc.Fr)
+		if !ok {
+			nonConst++
+			continue
+		}
+		for _, s := range ss {
 			consts[s] = true
-			continue
 		}
-		if ss, ok := sliceLiteralStrings(args[idx]); ok {
-			for _, s := range ss {
-				consts[s] = true
-			}
-			continue
-		}
-		nonConst++
 	}
+	return
+}
+
+// strippedChain walks back from the byte value v through sjson.DeleteBytes (and the calls in
+// `through`, and unexported or exported repository helpers) to its origins. It returns the
+// constant member names deleted on the way, the number of deletions under a non-constant
+// name, the names of the calls passed through and whether every origin satisfies isOrigin.
+func strippedChain(v ssa.Value, isOrigin func(ssa.Value) bool, through map[string][]int) (keys map[string]bool, nonConst int, passed map[string]bool, ok bool) {
+	keys = map[string]bool{}
+	passed = map[string]bool{}
+	thr := map[string][]int{"github.com/tidwall/sjson.DeleteBytes": {0}}
+	for k, v := range through {
+		thr[k] = v
+	}
+	ok = fw.DerivesFrom(v, fw.FlowSpec{
+		IsSource: isOrigin,
+		Through:  fw.ThroughNames(thr),
+		All:      true,
+		Visit: func(call ssa.CallInstruction, fr *fw.Frame) {
+			n := fw.CalleeName(call)
+			passed[n] = true
+			if n == "github.com/tidwall/sjson.DeleteBytes" {
+				ss, isC := fw.ConstStringsIn(call.Common().Args[1], fr)
+				if !isC {
+					nonConst++
+					return
+				}
+				for _, s := range ss {
+					keys[s] = true
+				}
+			}
+		},
+	})
 	return
 }
 
